@@ -8,6 +8,21 @@ Reading guide.  `X.eqI a b` / `X.eqO a b` is the model of `a.__eq__(b)` (`eqO â€
 the Python code raises), `X.hk heap a` the tuple handed to `hash` by `a.__hash__()`.  All
 statements quantify over ALL descriptors (any shape, any number of axes, any nesting depth
 of product spaces, any float / rational coordinates).
+
+Two kinds of theorems (the manifest says the same):
+(P) LAWS proved about the model of `__eq__` / `__hash__` and of the derived constructors:
+    the equivalence / hash theorems (weighting, interval, grid, partition, space, finite,
+    composite), `castVal_idem`, `real_complex_involution`, `astype_round_trip`,
+    `astype_byaxis_commute`, `pspace_index_list_int`, `dtype_tables_coherent`, and the
+    counterexample / sensitivity theorems.
+(S) BRANCH LEMMAS of the executable specification â€” `mem_iff_space_eq` (parts 1-2),
+    `element_idem`, `element_new_in_space`, `element_values`, `pspace_element_length`,
+    `astype_descr`, `byaxis_descr_partial`, `byaxis_nonnumeric`, `pspace_index_descr_partial`,
+    `pspace_astype_descr`: they unfold the hand-written definition of `element` / `astype` /
+    `byaxis` / `pindex` and say which outcome each branch has.  They document the specification
+    that the correspondence check executes against the real code; for that half of the
+    property the level reached is "executable specification tied by correspondence on the
+    zoo", not an independent proof.
 -/
 import OdlModel.Lemmas.Spaces
 import OdlModel.Gen.DTypeTables
